@@ -6,9 +6,12 @@
 //! coq/theories/Reactive/AsyncRun.v.
 use crate::exec;
 use futures::channel::oneshot;
-use leptos_server::{ArcOnceResource, ArcResource, OnceResource, Resource};
+use leptos_server::{ArcLocalResource, ArcOnceResource, ArcResource, LocalResource, OnceResource, Resource};
 use reactive_graph::{
-    computed::{suspense::SuspenseContext, ArcAsyncDerived, ArcMemo, AsyncDerived},
+    computed::{
+        suspense::{LocalResourceNotifier, SuspenseContext},
+        ArcAsyncDerived, ArcMemo, AsyncDerived,
+    },
     effect::Effect,
     graph::{Source, ToAnySubscriber},
     owner::{provide_context, Owner},
@@ -53,6 +56,9 @@ enum Node {
     Arena(AsyncDerived<i64>),
     Once(ArcOnceResource<i64>),
     OnceArena(OnceResource<i64>),
+    /// the real leptos_server local resources (no `ready()`, no write access)
+    Local(ArcLocalResource<i64>),
+    LocalArena(LocalResource<i64>),
 }
 
 impl Node {
@@ -62,6 +68,8 @@ impl Node {
             Node::Arena(n) => n.get_untracked(),
             Node::Once(n) => n.get_untracked(),
             Node::OnceArena(n) => n.get_untracked(),
+            Node::Local(n) => n.get_untracked(),
+            Node::LocalArena(n) => n.get_untracked(),
         }
     }
     fn get(&self) -> Option<i64> {
@@ -70,6 +78,8 @@ impl Node {
             Node::Arena(n) => n.get(),
             Node::Once(n) => n.get(),
             Node::OnceArena(n) => n.get(),
+            Node::Local(n) => n.get(),
+            Node::LocalArena(n) => n.get(),
         }
     }
     fn set(&self, v: i64) {
@@ -92,18 +102,26 @@ impl Node {
             Node::Arena(n) => Box::pin(n.into_future()),
             Node::Once(n) => Box::pin(n.clone().into_future()),
             Node::OnceArena(n) => Box::pin(n.into_future()),
+            Node::Local(n) => Box::pin(n.clone().into_future()),
+            Node::LocalArena(n) => Box::pin(n.into_future()),
         }
     }
     fn loading(&self) -> bool {
+        let w = Waker::from(Arc::new(Count(AtomicUsize::new(0))));
+        let mut cx = Context::from_waker(&w);
         // `ready()` resolves exactly when the loading flag is off
         let mut f = match self {
             Node::Arc(n) => n.ready(),
             Node::Arena(n) => n.ready(),
             Node::Once(n) => n.ready(),
             Node::OnceArena(n) => n.ready(),
+            // a local resource has no `ready()`: a throw-away await (outside any Suspense
+            // boundary) is pending exactly while the loading flag is on
+            Node::Local(_) | Node::LocalArena(_) => {
+                let mut a = self.awaiter();
+                return a.as_mut().poll(&mut cx).is_pending();
+            }
         };
-        let w = Waker::from(Arc::new(Count(AtomicUsize::new(0))));
-        let mut cx = Context::from_waker(&w);
         Pin::new(&mut f).poll(&mut cx).is_pending()
     }
 }
@@ -131,6 +149,57 @@ fn opt(v: Option<i64>) -> Sexp {
     match v {
         None => Lst(vec![]),
         Some(x) => Lst(vec![Num(x)]),
+    }
+}
+
+/// run every task that is not one of the case's visible tasks (the `Executor::tick()` tasks of a
+/// local resource: they only send on a oneshot channel) until none is ready
+fn run_ticks(vis: &[usize]) -> bool {
+    let mut any = false;
+    loop {
+        let r: Vec<usize> = exec::ready().into_iter().filter(|i| !vis.contains(i)).collect();
+        if r.is_empty() {
+            return any;
+        }
+        for i in r {
+            any |= exec::poll(i);
+        }
+    }
+}
+
+/// visible ready tasks, by their number in the case language
+fn ready_vis(vis: &[usize]) -> Vec<usize> {
+    let r = exec::ready();
+    (0..vis.len()).filter(|j| r.contains(&vis[*j])).collect()
+}
+
+/// one poll of visible task `j`. If the poll started a load whose future awaits a tick, the tick
+/// task runs at once and the task is polled again (it then reaches the fetch future proper): to
+/// the history, a load of a local resource starts within one poll like every other load.
+/// Schedules that put other events between a load's first poll and its tick are not explored.
+fn poll_task(vis: &[usize], j: usize) {
+    let mut first = true;
+    loop {
+        if !exec::poll(vis[j]) && first {
+            return;
+        }
+        first = false;
+        if !run_ticks(vis) {
+            return;
+        }
+    }
+}
+
+fn run_all(vis: &[usize], pick: &[i64]) {
+    let mut n = 0;
+    loop {
+        let r = ready_vis(vis);
+        if r.is_empty() || n >= 100_000 {
+            return;
+        }
+        let p = pick.get(n).copied().unwrap_or(0).rem_euclid(r.len() as i64) as usize;
+        n += 1;
+        poll_task(vis, r[p]);
     }
 }
 
@@ -162,6 +231,8 @@ fn run_in(c: &Sexp) -> Sexp {
     enum Res {
         Arc(ArcResource<i64>),
         Arena(Resource<i64>),
+        Local(ArcLocalResource<i64>),
+        LocalArena(LocalResource<i64>),
     }
     let mut resource: Option<Res> = None;
     // the "Suspense boundary": an owner that provides a SuspenseContext
@@ -170,11 +241,28 @@ fn run_in(c: &Sexp) -> Sexp {
         tasks: ArcRwSignal::new(Default::default()),
     };
     boundary.with(|| provide_context(suspense.clone()));
+    // … and, for local resources, the notifier a Suspense provides: told (once) that a
+    // local-only resource was read under it
+    let (local_tx, mut local_rx) = oneshot::channel::<()>();
+    let local = shape == 0 && wrap >= 3;
+    if local {
+        boundary.with(|| provide_context(LocalResourceNotifier::from(local_tx)));
+    }
+    let mut read_under_boundary = false;
     let node = match shape {
         0 => {
             let rf = refetch.clone();
             let f = move || mk_fut(fetch(s0.get(), s1.get()));
-            if wrap == 1 {
+            if wrap == 3 {
+                // the real constructors: the fetcher's future first awaits Executor::tick()
+                let r = ArcLocalResource::new(f);
+                resource = Some(Res::Local(r.clone()));
+                Node::Local(r)
+            } else if wrap == 4 {
+                let r = LocalResource::new(f);
+                resource = Some(Res::LocalArena(r));
+                Node::LocalArena(r)
+            } else if wrap == 1 {
                 Node::Arena(AsyncDerived::new(f))
             } else if wrap == 2 {
                 // what ArcLocalResource::new builds (minus the tick it awaits first)
@@ -249,7 +337,12 @@ fn run_in(c: &Sexp) -> Sexp {
             Node::Arc(data)
         }
     };
-    assert_eq!(exec::spawned(), 1, "the node spawns one task");
+    // tasks the history can name: 0 = the node's task, 1 = the dependent's. A local resource also
+    // spawns one `Executor::tick()` task per load (the first one at construction, before its
+    // own task); those are run by the harness at once, see `poll_task`
+    assert_eq!(exec::spawned(), if local { 2 } else { 1 }, "the node spawns one task");
+    let mut vis: Vec<usize> = vec![exec::spawned() - 1];
+    run_ticks(&vis);
     if dep {
         let n = node.clone();
         let s2 = sigs[2].clone();
@@ -263,8 +356,10 @@ fn run_in(c: &Sexp) -> Sexp {
             }
             DEPLOG.with(|l| l.borrow_mut().push(opt(v)));
         });
-        assert_eq!(exec::spawned(), 2, "the dependent effect spawns one task");
+        assert_eq!(exec::spawned(), vis[0] + 2, "the dependent effect spawns one task");
+        vis.push(vis[0] + 1);
     }
+    let vis = vis;
     let mut awaiters: Vec<Awaiter> = vec![];
     let obs = |awaiters: &Vec<Awaiter>| -> Sexp {
         let aw = awaiters
@@ -277,7 +372,7 @@ fn run_in(c: &Sexp) -> Sexp {
         Lst(vec![
             opt(node.get_untracked()),
             Sexp::bool(node.loading()),
-            Sexp::from_nums(exec::ready().into_iter().map(|x| x as i64)),
+            Sexp::from_nums(ready_vis(&vis).into_iter().map(|x| x as i64)),
             Lst(aw),
             Lst(DEPLOG.with(|l| std::mem::take(&mut *l.borrow_mut()))),
             Num(FUTS.with(|f| f.borrow().len()) as i64),
@@ -321,6 +416,8 @@ fn run_in(c: &Sexp) -> Sexp {
             1 => match &resource {
                 Some(Res::Arc(r)) => r.refetch(),
                 Some(Res::Arena(r)) => r.refetch(),
+                Some(Res::Local(r)) => r.refetch(),
+                Some(Res::LocalArena(r)) => r.refetch(),
                 None => refetch.update(|n| *n += 1),
             },
             2 => node.set(a),
@@ -331,15 +428,14 @@ fn run_in(c: &Sexp) -> Sexp {
                 }
             }
             5 => {
-                if a >= 0 && (a as usize) < exec::spawned() {
-                    exec::poll(a as usize);
+                if a >= 0 && (a as usize) < vis.len() {
+                    poll_task(&vis, a as usize);
                 }
             }
-            6 => {
-                exec::run_all(&ev.at(1).nums(), 100_000);
-            }
+            6 => run_all(&vis, &ev.at(1).nums()),
             7 => {
                 let sus = a != 0;
+                read_under_boundary |= sus;
                 let fut = if sus {
                     boundary.with(|| node.awaiter())
                 } else {
@@ -368,7 +464,7 @@ fn run_in(c: &Sexp) -> Sexp {
         complete(i);
     }
     loop {
-        exec::run_all(&[], 100_000);
+        run_all(&vis, &[]);
         let n2 = FUTS.with(|f| f.borrow().len());
         let mut any = false;
         for i in 0..n2 {
@@ -386,6 +482,13 @@ fn run_in(c: &Sexp) -> Sexp {
         poll_awaiter(aw);
     }
     out.push(obs(&awaiters));
+    if local {
+        assert_eq!(
+            local_rx.try_recv(),
+            Ok(if read_under_boundary { Some(()) } else { None }),
+            "the boundary's LocalResourceNotifier fires iff the resource was awaited under it"
+        );
+    }
     let _ = Mutex::new(());
     Lst(out)
 }
